@@ -64,11 +64,20 @@ func genC16(d *RunDesc, tier string) {
 	var tmplLevels []int
 	for i := 0; i < 4; i++ {
 		lvl := wl.intn(3)
-		t, _, _ := genTemplate(wl, lvl)
+		// mostly programs that text/template accepts: concurrency bugs in the
+		// export path need exports that get as far as executing
+		t, class, _ := genTemplate(wl, lvl)
+		for tries := 0; class != "valid" && tries < 4 && i < 3; tries++ {
+			t, class, _ = genTemplate(wl, lvl)
+		}
 		tmplPool = append(tmplPool, t)
 		tmplLevels = append(tmplLevels, lvl)
 	}
 	weights := [5]int{wl.between(1, 6), wl.between(1, 6), wl.between(1, 4), wl.between(1, 5), wl.between(0, 3)} // dec obs rep exp lkp
+	if wl.chance(1, 3) {
+		// swarm: a run dominated by one kind of operation
+		weights[wl.intn(5)] = 24
+	}
 	wsum := 0
 	for _, w := range weights {
 		wsum += w
@@ -157,7 +166,7 @@ func genC16(d *RunDesc, tier string) {
 				op := Op{K: "exp", Rep: &rep, Tmpl: tmpl, Via: "str"}
 				if wl.chance(1, 2) {
 					op.Via = "rd"
-					f := genFault(fl, len(tmpl), true)
+					f := genFault(fl, len(tmpl), wl.chance(1, 3))
 					op.Fault = &f
 				}
 				ops = append(ops, op)
